@@ -190,6 +190,93 @@ def value_mismatch(name, rv, fv):
     return out
 
 
+def origin_mismatches(case, files_text, real, toks):
+    """provenance check of the real origins against reference tokens (after token sequences agree).
+    returns list of notes"""
+    notes = []
+    text = real['text']
+    origins = real['origins']
+    offs = token_offsets(text)
+    if len(offs) != len(toks):
+        return ['token count differs (origins not compared)']
+    for (tt, o), ref in zip(offs, toks):
+        org = origins[o]
+        pv = ref.prov
+        if pv[0] == 'src' or pv[0] == 'com':
+            # every byte of the token maps to file, off+i
+            nb = len(tt.encode('utf-8'))
+            for i in range(nb):
+                exp = [pv[1], pv[2] + i]
+                if origins[o + i] != exp:
+                    notes.append('token %r byte %d at output %d: origin %r, expected %r' % (tt, i, o + i, origins[o + i], exp))
+                    break
+        elif pv[0] == 'kept':
+            if org is None or org[0] != pv[1]:
+                notes.append('kept directive token %r at output %d: origin %r, expected file %r' % (tt, o, org, pv[1]))
+            else:
+                src = files_text.get(org[0])
+                if src is not None:
+                    sb = src.encode('utf-8')
+                    nb = tt.encode('utf-8')
+                    if sb[org[1]:org[1] + len(nb)] != nb:
+                        notes.append('kept directive token %r at output %d maps to %r where the file has %r' % (tt, o, org, sb[org[1]:org[1] + len(nb)].decode('utf-8', 'replace')))
+        elif pv[0] == 'synth':
+            if org is not None:
+                notes.append('synthesised token %r at output %d has origin %r (expected none)' % (tt, o, org))
+        elif pv[0] == 'macro':
+            if pv[1] is None:
+                if org is not None:
+                    notes.append('token %r from caller-supplied define at output %d has origin %r (expected none)' % (tt, o, org))
+            else:
+                if org is None or org[0] != pv[1] or (pv[2] is not None and org[1] < pv[2]):
+                    notes.append('macro-expanded token %r at output %d: origin %r, expected file %r offset >= %r' % (tt, o, org, pv[1], pv[2]))
+    # every other byte: must have an origin whose source byte equals the output byte, unless it
+    # belongs to synthesised text
+    tb = text.encode('utf-8')
+    covered = [False] * len(tb)
+    for (tt, o), ref in zip(offs, toks):
+        for i in range(len(tt.encode('utf-8'))):
+            covered[o + i] = True
+    for i, c in enumerate(covered):
+        if c:
+            continue
+        org = origins[i]
+        # neighbouring tokens
+        prev_ref = next_ref = None
+        for (tt, o), ref in zip(offs, toks):
+            if o + len(tt.encode('utf-8')) <= i:
+                prev_ref = ref
+            elif o > i and next_ref is None:
+                next_ref = ref
+        inside_macro = prev_ref is not None and next_ref is not None and prev_ref.prov[0] == 'macro' and next_ref.prov == prev_ref.prov
+        if inside_macro:
+            pv = prev_ref.prov
+            if pv[1] is None:
+                if org is not None:
+                    notes.append('blank inside caller-supplied expansion at output %d has origin %r' % (i, org))
+            elif org is None or org[0] != pv[1] or (pv[2] is not None and org[1] < pv[2]):
+                notes.append('blank inside macro expansion at output %d: origin %r, expected file %r offset >= %r' % (i, org, pv[1], pv[2]))
+            continue
+        if org is None:
+            # trivia without origin: allowed only directly after synthesised or caller-define text
+            prev_synth = prev_ref is not None and (prev_ref.prov[0] == 'synth' or (prev_ref.prov[0] == 'macro' and prev_ref.prov[1] is None))
+            if not prev_synth:
+                notes.append('whitespace/comment byte at output %d (%r) has no origin' % (i, tb[i:i + 1].decode('utf-8', 'replace')))
+        else:
+            src = files_text.get(org[0])
+            if src is not None:
+                sb = src.encode('utf-8')
+                if not (0 <= org[1] < len(sb)) or sb[org[1]] != tb[i]:
+                    # blanks that end a macro expansion carry the expansion's provenance (file of the
+                    # definition, offset not before the body): accepted by the property's statement
+                    if prev_ref is not None and prev_ref.prov[0] == 'macro' and prev_ref.prov[1] is not None and \
+                            org[0] == prev_ref.prov[1] and (prev_ref.prov[2] is None or org[1] >= prev_ref.prov[2]):
+                        continue
+                    got = sb[org[1]:org[1] + 1].decode('utf-8', 'replace') if 0 <= org[1] < len(sb) else '<out of range>'
+                    notes.append('trivia byte at output %d (%r) maps to %r where the file has %r' % (i, tb[i:i + 1].decode('utf-8', 'replace'), org, got))
+    return notes
+
+
 class CrossResult:
     def __init__(self):
         self.mismatches = []     # dict(kind, note, model, real, ref)
